@@ -1,1 +1,196 @@
-//! cqlref::tablets - independent reference (see DESIGN.md 1.3). Owned by the builder of the property that needs it.
+//! cqlref::tablets - independent reference for C15 (see DESIGN.md 1.3): a latest-wins interval
+//! map written directly from the property statement. Deliberately boring: the whole history of
+//! learnt tablets is kept in learn order with an `alive` mark, every question is a linear scan.
+//!
+//! * a token is answered by the most recently learnt tablet that covers it - unless that tablet
+//!   was overlapped by a later update or discarded by maintenance, in which case the answer is
+//!   *nothing* (never an older tablet: stale data);
+//! * maintenance (a topology/schema refresh) drops the tablets of tables that are no longer
+//!   tablet tables, creates empty entries for tablet tables, resolves tablets learnt with unknown
+//!   replica ids if **all** their ids are known now and discards them otherwise, discards tablets
+//!   with a replica on a removed node;
+//! * nodes are plain labels (`u32`); what a node label currently denotes (address, datacenter,
+//!   object identity) is the harness' business.
+//!
+//! Also here: the `tablets-routing-v1` payload encoder (CQL `tuple<bigint, bigint,
+//! list<tuple<uuid, int>>>`, written from the CQL binary protocol's tuple/list layout) and the
+//! acceptance rule for payload ranges.
+
+use std::collections::{BTreeMap, BTreeSet};
+
+pub type NodeLabel = u32;
+
+#[derive(Clone, Debug, PartialEq, Eq)]
+pub struct RefTablet {
+    pub first: i64,
+    pub last: i64,
+    /// replica list exactly as the server sent it
+    pub raw: Vec<(NodeLabel, u32)>,
+    /// replicas the client can use right now: `raw` minus the ids unknown when learnt, until a
+    /// maintenance resolves the tablet
+    pub usable: Vec<(NodeLabel, u32)>,
+    pub unresolved: bool,
+    pub seq: u64,
+    pub alive: bool,
+    /// why it stopped being alive (diagnostics only)
+    pub died: Option<String>,
+}
+
+#[derive(Clone, Debug, Default)]
+pub struct RefTable {
+    pub history: Vec<RefTablet>,
+}
+
+#[derive(Clone, Debug, Default)]
+pub struct RefMap {
+    /// present key = the table is treated as a tablet table
+    pub tables: BTreeMap<String, RefTable>,
+    seq: u64,
+}
+
+impl RefMap {
+    pub fn new() -> Self {
+        Self::default()
+    }
+
+    /// A tablet `[first, last]` (inclusive) was learnt for `table`.
+    pub fn learn(&mut self, table: &str, first: i64, last: i64, raw: &[(NodeLabel, u32)], known: &BTreeSet<NodeLabel>) {
+        assert!(first <= last);
+        self.seq += 1;
+        let seq = self.seq;
+        let t = self.tables.entry(table.to_string()).or_default();
+        for old in t.history.iter_mut() {
+            let disjoint = old.last < first || last < old.first;
+            if old.alive && !disjoint {
+                old.alive = false;
+                old.died = Some(format!("overlapped by update #{seq} [{first},{last}]"));
+            }
+        }
+        let usable: Vec<(NodeLabel, u32)> = raw.iter().copied().filter(|(n, _)| known.contains(n)).collect();
+        t.history.push(RefTablet { first, last, raw: raw.to_vec(), unresolved: usable.len() != raw.len(), usable, seq, alive: true, died: None });
+    }
+
+    /// Topology / schema refresh. `tablet_tables`: tables (and views) of tablet-based keyspaces in
+    /// the fetched schema; `removed`: nodes known before and not any more; `known_now`: all nodes.
+    pub fn maintenance(&mut self, tablet_tables: &BTreeSet<String>, removed: &BTreeSet<NodeLabel>, known_now: &BTreeSet<NodeLabel>) {
+        self.tables.retain(|name, _| tablet_tables.contains(name));
+        for name in tablet_tables {
+            self.tables.entry(name.clone()).or_default();
+        }
+        for t in self.tables.values_mut() {
+            for tb in t.history.iter_mut().filter(|tb| tb.alive) {
+                if tb.unresolved {
+                    if tb.raw.iter().all(|(n, _)| known_now.contains(n)) {
+                        tb.unresolved = false;
+                        tb.usable = tb.raw.clone();
+                    } else {
+                        tb.alive = false;
+                        tb.died = Some("discarded: replica ids still unknown after a refresh".into());
+                        continue;
+                    }
+                }
+                if tb.usable.iter().any(|(n, _)| removed.contains(n)) {
+                    tb.alive = false;
+                    tb.died = Some("discarded: replica on a removed node".into());
+                }
+            }
+        }
+    }
+
+    pub fn is_tablet_table(&self, table: &str) -> bool {
+        self.tables.contains_key(table)
+    }
+
+    /// The property's lookup: the most recently learnt tablet covering `token`, if it is still
+    /// alive. `Err` carries the dead tablet (what a stale answer would look like).
+    pub fn lookup(&self, table: &str, token: i64) -> Result<Option<&RefTablet>, String> {
+        let Some(t) = self.tables.get(table) else { return Ok(None) };
+        let latest = t.history.iter().filter(|tb| tb.first <= token && token <= tb.last).max_by_key(|tb| tb.seq);
+        // internal consistency of the reference itself: at most one alive tablet covers a token,
+        // and if one does it is the latest learnt one
+        let alive: Vec<&RefTablet> = t.history.iter().filter(|tb| tb.alive && tb.first <= token && token <= tb.last).collect();
+        if alive.len() > 1 {
+            return Err(format!("reference inconsistent: {} alive tablets cover {token}", alive.len()));
+        }
+        match (latest, alive.first()) {
+            (Some(l), Some(a)) if l.seq != a.seq => Err(format!("reference inconsistent: alive tablet #{} covers {token} but #{} is later", a.seq, l.seq)),
+            (Some(l), _) if l.alive => Ok(Some(l)),
+            _ => Ok(None),
+        }
+    }
+
+    /// Alive tablets of a table sorted by first token.
+    pub fn alive(&self, table: &str) -> Vec<&RefTablet> {
+        let mut v: Vec<&RefTablet> = self.tables.get(table).map(|t| t.history.iter().filter(|tb| tb.alive).collect()).unwrap_or_default();
+        v.sort_by_key(|tb| tb.first);
+        v
+    }
+
+    /// Forget dead tablets (for long walks). Answers do not change: a dead tablet only ever
+    /// turns an answer into "nothing", and no alive tablet can be older than a dead one that
+    /// overlaps it (the later one would have killed it) - `lookup` re-checks this on every call.
+    pub fn compact(&mut self) {
+        for t in self.tables.values_mut() {
+            t.history.retain(|tb| tb.alive);
+        }
+    }
+}
+
+/// `tablets-routing-v1` value: `tuple<bigint, bigint, list<tuple<uuid, int>>>`.
+/// Tuple: every field as `[int32 length][bytes]`; list: `[int32 n]` then n `[int32 length][bytes]`.
+pub fn encode_payload(first_exclusive: i64, last_inclusive: i64, replicas: &[([u8; 16], i32)]) -> Vec<u8> {
+    fn field(out: &mut Vec<u8>, b: &[u8]) {
+        out.extend_from_slice(&(b.len() as i32).to_be_bytes());
+        out.extend_from_slice(b);
+    }
+    let mut list = Vec::new();
+    list.extend_from_slice(&(replicas.len() as i32).to_be_bytes());
+    for (uuid, shard) in replicas {
+        let mut el = Vec::new();
+        field(&mut el, uuid);
+        field(&mut el, &shard.to_be_bytes());
+        field(&mut list, &el);
+    }
+    let mut out = Vec::new();
+    field(&mut out, &first_exclusive.to_be_bytes());
+    field(&mut out, &last_inclusive.to_be_bytes());
+    field(&mut out, &list);
+    out
+}
+
+/// The server sends a left-open range `(first, last]`; it is a tablet iff it is non-empty and
+/// does not wrap, and then covers `first+1 ..= last`. A negative shard number is not a shard.
+pub fn payload_range(first_exclusive: i64, last_inclusive: i64) -> Option<(i64, i64)> {
+    if first_exclusive < last_inclusive { Some((first_exclusive + 1, last_inclusive)) } else { None }
+}
+
+#[cfg(test)]
+mod tests {
+    use super::*;
+    #[test]
+    fn latest_wins_and_no_stale_answers() {
+        let known: BTreeSet<u32> = [1, 2].into_iter().collect();
+        let mut m = RefMap::new();
+        m.learn("t", 0, 10, &[(1, 0)], &known);
+        m.learn("t", 5, 15, &[(2, 0)], &known);
+        assert!(m.lookup("t", 3).unwrap().is_none()); // T1 overlapped: nothing, not stale
+        assert_eq!(m.lookup("t", 7).unwrap().unwrap().seq, 2);
+        m.learn("t", 16, 16, &[(1, 0), (9, 1)], &known);
+        assert!(m.lookup("t", 16).unwrap().unwrap().unresolved);
+        let tt: BTreeSet<String> = ["t".to_string()].into_iter().collect();
+        m.maintenance(&tt, &BTreeSet::new(), &known);
+        assert!(m.lookup("t", 16).unwrap().is_none());
+        m.maintenance(&tt, &[2].into_iter().collect(), &[1].into_iter().collect());
+        assert!(m.lookup("t", 7).unwrap().is_none());
+        m.maintenance(&BTreeSet::new(), &BTreeSet::new(), &known);
+        assert!(!m.is_tablet_table("t"));
+    }
+    #[test]
+    fn payload_layout() {
+        let p = encode_payload(-1, 7, &[([0xab; 16], 3)]);
+        assert_eq!(p.len(), 4 + 8 + 4 + 8 + 4 + (4 + 4 + (4 + 16 + 4 + 4)));
+        assert_eq!(&p[0..4], &[0, 0, 0, 8]);
+        assert_eq!(payload_range(i64::MAX - 1, i64::MAX), Some((i64::MAX, i64::MAX)));
+        assert_eq!(payload_range(3, 3), None);
+    }
+}
